@@ -99,10 +99,10 @@ TEXT["C20"] = dict(text="Coq theorems over ALL outcomes and ALL error trees (any
     note="The classification of real SACK failures (sack_run) is validated by the real runs (kind 12), not proved from the SACK code.", technique="Coq proof (induction-free case analysis over outcome/error-tree predicates) + differential run of the real selector and the real TCP entry point")
 
 TEXT["C11"] = dict(text="Coq theorems: IP-ID blocks from ANY allocation sequence and ANY 32-bit counter value share no identifier while <= 65536 are live (incl. both wrap-arounds); n <= 65536 consecutive echo ids are distinct; a packet can be a genuine reply for two ICMP runs only if their echo ids are equal, "
-    "for two UDP/TCP/SACK runs only if they probe the same target endpoint and (direct replies / strict checking) use the same local endpoint. With C01 (hop => genuine) replies to one run's probes cannot become another run's hops unless identifiers collide. "
-    "Correspondence: real allocators (sequential + concurrent goroutines) vs the model; real driver pairs alive together, each fed the other's genuine replies.",
-    note="PARTIAL: the full lift 'k runs on a shared wire each produce their solo result' is not proved on the engine level and the shared-wire multi-run engine lab is not built; cross-protocol pairs are correspondence-only. Residues named in DESIGN (relaxed SACK to one target, Paris mode, UDP fixed IP-ID block).",
-    technique="Coq proof (modular arithmetic over all counter values; identifier-collision lemma on the genuineness predicate) + differential run of real allocators and of real driver pairs")
+    "for two UDP/TCP/SACK runs only if they probe the same target endpoint and (direct replies / strict checking) use the same local endpoint. With C01 (hop => genuine) replies to one run's probes cannot become another run's hops unless identifiers collide: on raw bytes a reply that is genuine for run B is never a hop for run A (foreign_*_reply_is_noise), and on the engine level, for ANY interleaving of own and foreign packets, nothing foreign enters the result and every own reply readable by the deadline is accepted (shared_wire_isolation). "
+    "Correspondence: real allocators (sequential + concurrent goroutines) vs the model; real driver pairs alive together, each fed the other's genuine replies; 2..6 real runs / whole requests at once over one simulated wire where every handle sees every packet, each of which must report the ideal path of its own flow.",
+    note="PARTIAL: bit-for-bit equality with the solo result is not provable (nor true) for replies that become readable within one poll interval after the deadline; the engine lift is proved for the parallel engine only; cross-protocol pairs are correspondence-only (shared-wire lab mixes protocols). Residues named in DESIGN (relaxed SACK to one target, Paris mode, UDP fixed IP-ID block).",
+    technique="Coq proof (modular arithmetic over all counter values; identifier-collision lemma on the genuineness predicate) + differential run of real allocators, of real driver pairs and of concurrent real runs on a shared simulated wire")
 
 TEXT["C10"] = dict(text="Coq theorems over EVERY plan of engine operations and EVERY injected fault (operation, k, class) of the lifecycle program: handles opened are closed exactly once and never used afterwards, the outcome is a success or an error that keeps the cause (zero-length read excepted), an unreached fault changes nothing; never a partial path (C03). "
     "Correspondence + fault enumeration: the real entry points (udp/icmp v4+v6, tcp syn; SACK via the policy lab) over the simulated wire with one fault at every reachable (operation, k) x class.",
